@@ -9,6 +9,7 @@ From Cedar Require Export TCRun.
 From Cedar Require Export ParseRun.
 From Cedar Require Export Fmt.
 From Cedar Require Export EstRun.
+From Cedar Require Export PERun.
 
 Definition dispatchers : list (string -> list sexp -> option sexp) :=
   [ run_core
@@ -18,6 +19,7 @@ Definition dispatchers : list (string -> list sexp -> option sexp) :=
   ; run_c05
   ; run_fmt
   ; run_formats
+  ; run_pe
   ].
 
 Fixpoint dispatch (ds : list (string -> list sexp -> option sexp)) (cmd : string) (args : list sexp) : sexp :=
